@@ -437,8 +437,15 @@ func Run(c *core.Ctx) {
 					e.hookCalls++
 					f0, _ := e.sys.eval(floats(x))
 					yv := floats(y)
+					// a diverged run (overflowing iterates) is not a hook matter
+					diverged := false
+					for _, v := range append(append([]float64{}, f0...), floats(x)...) {
+						if math.IsInf(v, 0) || math.IsNaN(v) || math.Abs(v) > 1e150 {
+							diverged = true
+						}
+					}
 					for i := range f0 {
-						if !close9(yv[i], f0[i]) && !(e.nanHit && math.IsNaN(yv[i])) {
+						if !diverged && !close9(yv[i], f0[i]) && !(e.nanHit && math.IsNaN(yv[i])) {
 							c.Fail("hook-honesty", "newton.RunRoot|value", "hook call %d: passed F=%v with x=%v, but F(x)=%v", e.hookCalls, yv, floats(x), f0)
 						}
 					}
@@ -673,8 +680,8 @@ func init() {
 		Level:  "exploration",
 		Engine: "C: optimizer-in-an-environment simulator",
 		Scenarios: []core.Scenario{
-			{Name: "clean", Weight: 1},
-			{Name: "faults", Weight: 1, Faulty: true},
+			{Name: "clean", Weight: 4},
+			{Name: "faults", Weight: 4, Faulty: true},
 			{Name: "saga", Weight: 1},
 			{Name: "saga-faults", Weight: 1, Faulty: true},
 			{Name: "blahut", Weight: 1},
@@ -701,7 +708,7 @@ func init() {
 		RealCode:     []string{"algorithm/bfgs, rprop, gradientDescent, adam, newton, lineSearch (and what they call: matrixInverse, cholesky, qrAlgorithm), algorithm/saga (dense and sparse variants, proximal operators, EvalStopping), algorithm/blahut (Run, RunNaive)"},
 		Stubs:        []string{"objective, constraint predicate, hook (the environment)"},
 		Caps:         map[string]int{"dimension": 4, "iteration_cap": 2000, "faults_per_run": 2},
-		QuickRuns:    120000,
+		QuickRuns:    150000,
 		ThoroughRuns: 3000000,
 		MarkEveryRun: true,
 	})
